@@ -163,3 +163,22 @@ def report_journal_objects(ctx):
                           {"input": {"function": fn, "call": meth, "size_bits_in_source": size, "expected": want[:1]},
                            "how": "regenerated table Gen/Skeleton.journalObjects against Model/Skeleton.journalObjectsExpected: the journal merges sub-block objects of concurrently "
                                   "committing transactions; an object wider than what its writer owns (a bitmap BYTE: eight allocator numbers) carries stale bits of other transactions"})
+
+
+def two_phase(ctx, lines, ok_drv, prop, consequence):
+    """Every transaction recorded in a sequential run (harness seq -locks) is two-phase: no lock is taken after one was given back
+    or after the abort.  A violation is visible in ONE sequential trace; what follows from it under concurrency is `consequence`."""
+    if lines is None or not ok_drv:
+        return
+    import conclib
+    try:
+        lm = [x for x in conclib.check_locks(ctx, lines, prop, "sequential") if "two-phase" in x]
+    except Break as b:
+        ctx.breaks.append(b)
+        return
+    if lm:
+        ctx.breaks.append(Break("correspondence", "recorded transactions are not two-phase (%d)" % len(lm), "\n".join(lm[:8])))
+    for x in lm[:2]:
+        parts = x.split(" :: ")
+        ctx.add_violation("not-two-phase:" + parts[1].split()[1], "a transaction takes a lock after it has given locks back (or after its abort): " + parts[-1][:200],
+                          {"how": "lock/commit events of one request recorded by the fstxn hooks (harness seq -locks). " + consequence, "trace": parts[-1]})
